@@ -319,8 +319,18 @@ class TseytinAny(CircuitContract):
         else:
             t, a = self.mode
             ctx.assume(z3.And(z3.Not(old[0](L)), S0.typ(L) == GT[t], S0.nops(L) == a))
+        # frame condition (R6): everything else the procedure could carry from call to call - another enclosing variable
+        # that it re-binds, a list / dict / set of the enclosing scope that it mutates - is outside the contract
+        from ..pyvc.models import CutFrame
+        from ..pyvc.interp import stored_names
+        cut = CutFrame(it, env, stored_names([fv.node]) - {fv.node.name}, 'the body of process_gate (rule R6)')
         install(it, env, val, *old)
-        r = it.call_function(fv, [Sym(L)], {}, force_inline=True)
+        barrier = cut.after()
+        it.barriers.append(barrier)
+        try:
+            r = it.call_function(fv, [Sym(L)], {}, force_inline=True)
+        finally:
+            it.barriers.remove(barrier)
         new = view(it, env, val)
         l, l2 = ctx.fresh(LabelSort, 'lv'), ctx.fresh(LabelSort, 'l2v')
         i = ctx.fresh(I, 'iv')
